@@ -240,3 +240,49 @@ func AttackCase(c *core.Case, prop string) {
 		}
 	}
 }
+
+// LiveCase runs one live cluster (real reactors, switches, tickers) and reports the monitors' alarms of property prop.
+func LiveCase(c *core.Case, prop string) {
+	run := c.Run
+	r := c.R
+	n := 4 + r.Intn(2)
+	powers := make([]int64, n)
+	for i := range powers {
+		powers[i] = 20 + 10*int64(r.Intn(3))
+	}
+	al := NewAlarms()
+	net, res, err := RunLive(LiveOpts{N: n, Powers: powers, Heights: uint64(6 + r.Intn(6)), MaxWall: 150 * time.Second, Fuzz: r.Intn(2) == 0}, al)
+	if net != nil {
+		defer net.Close()
+	}
+	if err != nil {
+		run.Inconclusive("live cluster build failed: " + err.Error())
+		return
+	}
+	run.Eval(1)
+	run.Count("live_runs", 1)
+	run.Count("live_heights_committed", int(res.MinHeight))
+	for rd, k := range res.Rounds {
+		if rd > 1 {
+			run.Count("live_commits_in_round_gt1", k)
+		}
+	}
+	for k, v := range al.Counts {
+		run.Count("live:"+k, v)
+	}
+	if !res.Reached {
+		run.Count("live_runs_slow_not_judged", 1) // speed is never a verdict
+	} else {
+		run.Nontrivial(fmt.Sprint("live", c.I, n, res.MinHeight))
+	}
+	if c.I < 1 {
+		run.Sample(map[string]interface{}{"live": true, "validators": n, "powers": powers, "heights": res.MinHeight, "wall_s": res.Wall.Seconds(), "commit_rounds": fmt.Sprint(res.Rounds)})
+	}
+	for _, a := range al.List {
+		if a.Prop == prop {
+			c.Violation("live:"+a.Key, a.What, map[string]interface{}{"validators": n, "powers": powers})
+		} else {
+			run.Count("alarm_of_other_property:"+a.Prop+":"+a.Key, 1)
+		}
+	}
+}
